@@ -206,13 +206,26 @@ type env struct {
 	faults          *faults
 	fetchFail       *atomic.Bool
 	errorLogger     *countingErrorLogger
-	handleAllocator *virtual.NFSStatefulHandleAllocator
-	sectorAllocator pool.SectorAllocator
-	filePool        pool.FilePool
-	fileAllocator   virtual.FileAllocator
-	symlinkFactory  virtual.SymlinkFactory
-	nattrFactory    virtual.NamedAttributesFactory
-	root            virtual.PrepopulatedDirectory
+	handleAllocator virtual.StatefulHandleAllocator
+	// Exactly one of the two is set: the NFS handle allocator (its pool
+	// lock has a TryLock probe) or the FUSE one (its lock is probed by
+	// the next call that needs it exclusively, RegisterRemovalNotifier).
+	nfsAllocator  *virtual.NFSStatefulHandleAllocator
+	fuseAllocator *virtual.FUSEStatefulHandleAllocator
+	// Lazily created by the ResolveHandle calls.
+	resolvable       virtual.ResolvableHandleAllocator
+	resolverFails    atomic.Bool
+	removalsNotified atomic.Int64
+	sectorAllocator  pool.SectorAllocator
+	filePool         pool.FilePool
+	fileAllocator    virtual.FileAllocator
+	// The pool-backed file allocator without the handle allocating
+	// decorator (which keeps link counts of its own, so that the Link()
+	// of the pool-backed file is only reached without it).
+	rawFileAllocator virtual.FileAllocator
+	symlinkFactory   virtual.SymlinkFactory
+	nattrFactory     virtual.NamedAttributesFactory
+	root             virtual.PrepopulatedDirectory
 
 	mu      sync.Mutex
 	dirs    []virtual.PrepopulatedDirectory // every directory ever seen, also removed ones
@@ -225,7 +238,15 @@ func hiddenMatcher(s string) bool { return strings.HasPrefix(s, ".hid") }
 
 func defaultAttributesSetter(requested virtual.AttributesMask, attributes *virtual.Attributes) {}
 
-func newEnv(tr *common.Trace) *env {
+// envOptions selects the variable parts of the object graph.
+type envOptions struct {
+	fuse       bool                        // FUSE handle allocator instead of the NFS one
+	normalizer virtual.ComponentNormalizer // nil: case sensitive
+}
+
+func newEnv(tr *common.Trace) *env { return newEnvWith(tr, envOptions{}) }
+
+func newEnvWith(tr *common.Trace, opt envOptions) *env {
 	e := &env{
 		tr:          tr,
 		faults:      &faults{},
@@ -235,7 +256,17 @@ func newEnv(tr *common.Trace) *env {
 		leafSet:     map[virtual.Leaf]int{},
 	}
 	e.fetchFail.Store(true)
-	e.handleAllocator = virtual.NewNFSHandleAllocator(random.NewFastSingleThreadedGenerator())
+	if opt.fuse {
+		e.fuseAllocator = virtual.NewFUSEHandleAllocator(random.FastThreadSafeGenerator)
+		e.handleAllocator = e.fuseAllocator
+	} else {
+		e.nfsAllocator = virtual.NewNFSHandleAllocator(random.NewFastSingleThreadedGenerator())
+		e.handleAllocator = e.nfsAllocator
+	}
+	normalizer := opt.normalizer
+	if normalizer == nil {
+		normalizer = virtual.CaseSensitiveComponentNormalizer
+	}
 	const sectorSize, sectorCount = 16, 4096
 	e.sectorAllocator = pool.NewBitmapSectorAllocator(sectorCount)
 	e.filePool = &faultyPool{
@@ -255,12 +286,11 @@ func newEnv(tr *common.Trace) *env {
 		virtual.NewPoolBackedFileAllocator(e.filePool, e.errorLogger, defaultAttributesSetter, virtual.InNamedAttributeDirectoryNamedAttributesFactory),
 		e.handleAllocator)
 	e.nattrFactory = virtual.NewInMemoryNamedAttributesFactory(nattrFileAllocator, e.symlinkFactory, e.errorLogger, e.handleAllocator, clock.SystemClock)
-	e.fileAllocator = virtual.NewHandleAllocatingFileAllocator(
-		virtual.NewPoolBackedFileAllocator(e.filePool, e.errorLogger, defaultAttributesSetter, e.nattrFactory),
-		e.handleAllocator)
+	e.rawFileAllocator = virtual.NewPoolBackedFileAllocator(e.filePool, e.errorLogger, defaultAttributesSetter, e.nattrFactory)
+	e.fileAllocator = virtual.NewHandleAllocatingFileAllocator(e.rawFileAllocator, e.handleAllocator)
 	e.root = virtual.NewInMemoryPrepopulatedDirectory(
 		e.fileAllocator, e.symlinkFactory, e.errorLogger, e.handleAllocator,
-		sort.Sort, hiddenMatcher, clock.SystemClock, virtual.CaseSensitiveComponentNormalizer,
+		sort.Sort, hiddenMatcher, clock.SystemClock, normalizer,
 		defaultAttributesSetter, e.nattrFactory)
 	e.addDir(e.root)
 	return e
@@ -338,7 +368,7 @@ func (e *env) busy() []string {
 			out = append(out, fmt.Sprintf("file#%d", i))
 		}
 	}
-	if !e.handleAllocator.VerifLockProbeIsFree() {
+	if e.nfsAllocator != nil && !e.nfsAllocator.VerifLockProbeIsFree() {
 		out = append(out, "nfsHandlePool")
 	}
 	if !pool.VerifLockProbeSectorAllocator(e.sectorAllocator) {
@@ -365,51 +395,267 @@ type callResult struct {
 	panic   string
 }
 
-// watchdog is how long a call may take before the goroutine that runs it
-// is inspected. Calls take microseconds; the machine may be overloaded.
+// The verdicts "hang" and "deadlock" never depend on how long something
+// took. They are taken from one consistent snapshot of all goroutines
+// (runtime.Stack stops the world): a call cannot return any more if its
+// goroutine waits for a mutex and every goroutine that executes code of
+// the real packages (the only code that unlocks their mutexes) is itself
+// waiting for a mutex or for a channel/condition that only such a
+// goroutine, or the driver after this call returned, would signal. The
+// clock only decides when the driver looks, and when it gives up on a
+// run that is neither finished nor blocked (infrastructure failure).
+
+// watchdog bounds how long a call may be neither finished nor blocked
+// before the run is abandoned as an infrastructure failure (6 periods).
 var watchdog = time.Duration(common.EnvInt("VERIF_WATCHDOG_S", 20)) * time.Second
 
+const realCodePrefix = "github.com/buildbarn/bb-remote-execution/pkg/"
+
+func isChannelWait(state string) bool {
+	return strings.HasPrefix(state, "chan receive") || strings.HasPrefix(state, "chan send") || strings.HasPrefix(state, "select") ||
+		state == "sync.Cond.Wait" || state == "sync.WaitGroup.Wait"
+}
+
+// blockedKind classifies one consistent snapshot with respect to the
+// calls `need` (goroutine ids) that the driver waits for:
+//
+//	"running"  some goroutine that executes real code (or one of need)
+//	           can still run: nothing can be concluded
+//	"mutex"    nothing can run any more and one of need waits for a mutex
+//	"channel"  nothing can run any more and all of need wait in channel
+//	           operations
+func blockedKind(dump []goroutineInfo, need []string) (kind, detail string) {
+	needSet := map[string]bool{}
+	for _, id := range need {
+		needSet[id] = true
+	}
+	found := 0
+	mutex := false
+	var sb strings.Builder
+	for _, g := range dump {
+		id, _, _ := strings.Cut(g.stack, " [")
+		needed := needSet[id]
+		if !needed && !strings.Contains(g.stack, realCodePrefix) {
+			continue
+		}
+		if needed {
+			found++
+		}
+		switch {
+		case isMutexWait(g.state):
+			if needed {
+				mutex = true
+			}
+		case isChannelWait(g.state):
+		default:
+			return "running", ""
+		}
+		if needed {
+			lines := strings.Split(g.stack, "\n")
+			if len(lines) > 14 {
+				lines = lines[:14]
+			}
+			sb.WriteString(strings.Join(lines, "\n"))
+			sb.WriteString("\n\n")
+		}
+	}
+	if found != len(needSet) {
+		// A needed goroutine is gone: its result is on its way.
+		return "running", ""
+	}
+	if mutex {
+		return "mutex", sb.String()
+	}
+	return "channel", sb.String()
+}
+
+// awaitResult waits for the result of a call. blocked is "" if the call
+// returned, otherwise "mutex" or "channel" (see blockedKind; `others` are
+// further calls in flight that the driver waits for).
+func awaitResult(done chan callResult, id string, others []string) (res callResult, blocked string) {
+	start := time.Now()
+	pause := 50 * time.Millisecond
+	for {
+		select {
+		case r := <-done:
+			return r, ""
+		case <-time.After(pause):
+		}
+		if kind, _ := blockedKind(goroutineDump(), append([]string{id}, others...)); kind != "running" {
+			// The snapshot is conclusive; the result cannot arrive
+			// any more (look once, it may have arrived just before).
+			select {
+			case r := <-done:
+				return r, ""
+			default:
+			}
+			return callResult{}, kind
+		}
+		if time.Since(start) > 6*watchdog {
+			panic(fmt.Sprintf("INFRA: call did not return within %v but is not blocked (state %q)", 6*watchdog, goroutineStateOf(id)))
+		}
+		if pause < time.Second {
+			pause *= 2
+		}
+	}
+}
+
 // runWatched runs f in its own goroutine. It returns hung=true if the
-// call did not return in time and its goroutine is parked waiting for a
-// mutex; a call that is merely slow makes the driver fail (exit 2).
+// call can never return because it waits for a mutex that nobody is left
+// to unlock (see blockedKind).
 func runWatched(f func() string) (res callResult, hung bool) {
-	done := make(chan callResult, 1)
+	h := startWatched(f)
+	res, blocked := awaitResult(h.done, h.id, nil)
+	switch blocked {
+	case "mutex":
+		return callResult{}, true
+	case "channel":
+		panic(fmt.Sprintf("INFRA: a call that must not wait for anything is parked in a channel operation and nothing is left to wake it (state %q)", goroutineStateOf(h.id)))
+	}
+	return res, false
+}
+
+// ---------------------------------------------------------------------------
+// Calls that wait by design (for a frozen reader to be closed, for the
+// writers of a file to go away): they are started, observed to be parked
+// in a channel operation, the calls that wake them are made, and then
+// they must return.
+
+type inflight struct {
+	id   string
+	done chan callResult
+}
+
+func startWatched(f func() string) *inflight {
+	h := &inflight{done: make(chan callResult, 1)}
 	gid := make(chan string, 1)
 	go func() {
 		defer func() {
 			if r := recover(); r != nil {
-				done <- callResult{panic: fmt.Sprint(r)}
+				h.done <- callResult{panic: fmt.Sprint(r)}
 			}
 		}()
 		gid <- currentGoroutineID()
-		done <- callResult{outcome: verifCallTrampoline(f)}
+		h.done <- callResult{outcome: verifCallTrampoline(f)}
 	}()
-	id := <-gid
-	deadline := time.NewTimer(watchdog)
-	defer deadline.Stop()
-	for attempt := 0; ; attempt++ {
+	h.id = <-gid
+	return h
+}
+
+// waitParkedOrDone waits until the call returned (res != nil) or its
+// goroutine waits in a channel operation (this only sequences the driver;
+// no verdict depends on it).
+func (h *inflight) waitParkedOrDone() (res *callResult, state string) {
+	start := time.Now()
+	seen := 0
+	for {
 		select {
-		case r := <-done:
-			return r, false
-		case <-deadline.C:
+		case r := <-h.done:
+			return &r, ""
+		default:
 		}
-		state := goroutineStateOf(id)
-		if isMutexWait(state) {
-			// Look again a little later: it must still be there.
-			select {
-			case r := <-done:
-				return r, false
-			case <-time.After(2 * time.Second):
+		state = goroutineStateOf(h.id)
+		if isChannelWait(state) {
+			seen++
+			if seen >= 2 {
+				return nil, state
 			}
-			if isMutexWait(goroutineStateOf(id)) {
-				return callResult{}, true
-			}
+		} else {
+			seen = 0
 		}
-		if attempt >= 5 {
-			panic(fmt.Sprintf("INFRA: call did not return within %v but is not waiting for a mutex (state %q)", 6*watchdog, state))
+		if time.Since(start) > 6*watchdog {
+			panic(fmt.Sprintf("INFRA: call neither returned nor parked within %v (state %q)", 6*watchdog, state))
 		}
-		deadline.Reset(watchdog)
+		time.Sleep(200 * time.Microsecond)
 	}
+}
+
+// wait waits for the call to return. hung: it can never return and waits
+// for a mutex; stuck: it can never return and is still parked in its
+// channel operation although the calls that should have woken it
+// returned.
+func (h *inflight) wait() (res callResult, hung, stuck bool) {
+	res, blocked := awaitResult(h.done, h.id, nil)
+	return res, blocked == "mutex", blocked == "channel"
+}
+
+// waker is a call that makes a parked call runnable again.
+type waker struct {
+	call, variant string
+	f             func() string
+	post          func(outcome string)
+}
+
+// recordParked runs a call that is expected to wait by design until the
+// wakers have been called. Neither f nor the wakers' f may touch the
+// driver's bookkeeping (they overlap); post functions run afterwards on
+// the driver's goroutine. Events: "park" (the call is in flight and
+// waits), one "call" per waker and "resumed" for the parked call, all
+// probed after every call returned (a call in flight may hold locks);
+// "hang" if a waker or the woken call waits for a mutex for ever.
+func (e *env) recordParked(obj, call, variant string, f func() string, post func(outcome string), wakers func() []waker) bool {
+	h := startWatched(f)
+	res, state := h.waitParkedOrDone()
+	if res != nil {
+		// It did not have to wait.
+		e.faults.clear()
+		e.discover()
+		busy := e.busy()
+		if res.panic != "" {
+			e.tr.Emit(common.Ev{"ev": "panic", "obj": obj, "call": call, "variant": variant + ";not-parked", "msg": res.panic, "locks_free": len(busy) == 0, "busy": busy})
+			return false
+		}
+		post(res.outcome)
+		e.tr.Emit(common.Ev{"ev": "call", "obj": obj, "call": call, "variant": variant + ";not-parked", "outcome": res.outcome, "locks_free": len(busy) == 0, "busy": busy})
+		return len(busy) == 0
+	}
+	e.tr.Emit(common.Ev{"ev": "park", "obj": obj, "call": call, "variant": variant, "state": state})
+	type done struct {
+		w   waker
+		res callResult
+	}
+	var finished []done
+	for _, w := range wakers() {
+		r, hung := runWatched(w.f)
+		if hung {
+			hangCount.Add(1)
+			e.tr.Emit(common.Ev{"ev": "hang", "obj": obj, "call": w.call, "variant": w.variant + ";while-parked=" + call})
+			return false
+		}
+		if r.panic == "" && w.post != nil {
+			w.post(r.outcome)
+		}
+		finished = append(finished, done{w, r})
+	}
+	r, hung, stuck := h.wait()
+	e.faults.clear()
+	if hung {
+		hangCount.Add(1)
+		e.tr.Emit(common.Ev{"ev": "hang", "obj": obj, "call": call, "variant": variant + ";after-wake-up"})
+		return false
+	}
+	if stuck {
+		e.tr.Emit(common.Ev{"ev": "stuck", "obj": obj, "call": call, "variant": variant})
+		return false
+	}
+	e.discover()
+	busy := e.busy()
+	ok := len(busy) == 0
+	for _, d := range finished {
+		if d.res.panic != "" {
+			e.tr.Emit(common.Ev{"ev": "panic", "obj": obj, "call": d.w.call, "variant": d.w.variant, "msg": d.res.panic, "locks_free": ok, "busy": busy})
+			ok = false
+			continue
+		}
+		e.tr.Emit(common.Ev{"ev": "call", "obj": obj, "call": d.w.call, "variant": d.w.variant + ";while-parked=" + call, "outcome": d.res.outcome, "locks_free": len(busy) == 0, "busy": busy})
+	}
+	if r.panic != "" {
+		e.tr.Emit(common.Ev{"ev": "panic", "obj": obj, "call": call, "variant": variant + ";after-wake-up", "msg": r.panic, "locks_free": len(busy) == 0, "busy": busy})
+		return false
+	}
+	post(r.outcome)
+	e.tr.Emit(common.Ev{"ev": "resumed", "obj": obj, "call": call, "variant": variant, "outcome": r.outcome, "locks_free": len(busy) == 0, "busy": busy})
+	return ok
 }
 
 // currentGoroutineID returns the "goroutine N" prefix of the caller's
@@ -440,18 +686,26 @@ type goroutineInfo struct {
 	stack string
 }
 
+var (
+	dumpMu  sync.Mutex
+	dumpBuf = make([]byte, 1<<18)
+)
+
+// goroutineDump returns one consistent snapshot of all goroutines.
 func goroutineDump() []goroutineInfo {
-	buf := make([]byte, 1<<20)
+	dumpMu.Lock()
+	defer dumpMu.Unlock()
+	var text string
 	for {
-		n := runtime.Stack(buf, true)
-		if n < len(buf) {
-			buf = buf[:n]
+		n := runtime.Stack(dumpBuf, true)
+		if n < len(dumpBuf) {
+			text = string(dumpBuf[:n])
 			break
 		}
-		buf = make([]byte, 2*len(buf))
+		dumpBuf = make([]byte, 2*len(dumpBuf))
 	}
 	var out []goroutineInfo
-	for _, block := range strings.Split(string(buf), "\n\n") {
+	for _, block := range strings.Split(text, "\n\n") {
 		head, _, _ := strings.Cut(block, "\n")
 		// "goroutine 12 [sync.Mutex.Lock, 2 minutes]:"
 		i := strings.Index(head, "[")
@@ -490,7 +744,30 @@ func (e *env) record(obj, call, variant string, f func() string) bool {
 		return false
 	}
 	e.tr.Emit(common.Ev{"ev": "call", "obj": obj, "call": call, "variant": variant, "outcome": res.outcome, "locks_free": len(busy) == 0, "busy": busy})
-	return len(busy) == 0
+	if len(busy) != 0 {
+		return false
+	}
+	return e.probeFUSE(call)
+}
+
+// probeFUSE: the lock of the FUSE handle allocator has no TryLock hook.
+// It is probed by the next call of the real code that needs it
+// exclusively: RegisterRemovalNotifier must return (a lock left behind by
+// the previous call makes it wait for ever, which the watchdog reports).
+func (e *env) probeFUSE(after string) bool {
+	if e.fuseAllocator == nil {
+		return true
+	}
+	_, hung := runWatched(func() string {
+		e.fuseAllocator.RegisterRemovalNotifier(func(parent uint64, name path.Component) { e.removalsNotified.Add(1) })
+		return "ok"
+	})
+	if hung {
+		hangCount.Add(1)
+		e.tr.Emit(common.Ev{"ev": "hang", "obj": "handle", "call": "RegisterRemovalNotifier", "variant": "after=" + after})
+		return false
+	}
+	return true
 }
 
 // ---------------------------------------------------------------------------
